@@ -1,2 +1,99 @@
 import Jwt
-def main : IO Unit := IO.println "stub"
+/-! Line-protocol driver: same operation lines as harness/exec.c, answered by the model. -/
+open Jwt Jwt.Base64 Jwt.Generated
+
+namespace Driver
+
+def hexDigit (c : Char) : Option Nat :=
+  if '0' ≤ c ∧ c ≤ '9' then some (c.toNat - 48)
+  else if 'a' ≤ c ∧ c ≤ 'f' then some (c.toNat - 87)
+  else if 'A' ≤ c ∧ c ≤ 'F' then some (c.toNat - 55)
+  else none
+
+def unhexList : List Char → Option Bytes
+  | [] => some []
+  | [_] => none
+  | a :: b :: rest => do
+    let x ← hexDigit a
+    let y ← hexDigit b
+    let r ← unhexList rest
+    pure (UInt8.ofNat (x * 16 + y) :: r)
+
+/-- `some none` = the NULL pointer -/
+def unhex (s : String) : Option (Option Bytes) :=
+  if s = "NULL" then some none
+  else if s = "-" then some (some [])
+  else (unhexList s.toList).map some
+
+def hexChar (n : Nat) : Char := if n < 10 then Char.ofNat (48 + n) else Char.ofNat (87 + n)
+
+def hex (b : Bytes) : String :=
+  if b.isEmpty then "-"
+  else String.ofList (b.flatMap fun x => [hexChar (x.toNat / 16), hexChar (x.toNat % 16)])
+
+def hexOpt : Option Bytes → String
+  | none => "NULL"
+  | some b => hex b
+
+structure St where
+  dummy : Nat := 0
+
+def step (st : St) (line : String) : St × String :=
+  let toks := (line.trimAscii.toString.splitOn " ").filter (· ≠ "")
+  match toks with
+  | [] => (st, "")
+  | ["b64enc", h] =>
+    match unhex h with
+    | some (some b) => let o := base64Encode b; (st, s!"{hex o} {o.length} nul=1")
+    | _ => (st, "badop")
+  | ["b64dec", h] =>
+    match unhex h with
+    | some (some b) =>
+      match base64Decode b (List.replicate (decodeOutSize b.length + 1) 0xAA) with
+      | .oob => (st, "oob")
+      | .reject => (st, "j=0 -")
+      | .ok j out => (st, s!"j={j} {hex (out.take j)}")
+    | _ => (st, "badop")
+  | ["urienc", h] =>
+    match unhex h with
+    | some (some b) => (st, s!"{hex (uriEncode b)} ret={uriEncodeRet b}")
+    | _ => (st, "badop")
+  | ["uridec", h] =>
+    match unhex h with
+    | some (some b) =>
+      -- The literal decoder works on a `List` buffer (`List.set` is linear, the loop quadratic):
+      -- beyond 1 KiB the driver evaluates `decodeSpec`, which `Jwt.Props.C11.C11_decode_spec`
+      -- proves equal to `uriDecode` on every input.
+      (st, hexOpt (if b.length ≤ 1024 then uriDecode b else decodeSpec b))
+    | _ => (st, "badop")
+  | ["strcmp", a, b] =>
+    match unhex a, unhex b with
+    | some (some x), some (some y) => (st, if jwtStrcmp x y = 0 then "0" else "1")
+    | _, _ => (st, "badop")
+  | ["stralg", a] =>
+    match unhex a with
+    | some x => (st, toString (strAlg x).ord)
+    | none => (st, "badop")
+  | ["algstr", n] =>
+    match n.toNat? with
+    | some k => (st, hexOpt ((Alg.ofOrd k).bind algStr))
+    | none => (st, "badop")
+  | ["echo"] => (st, "echo")
+  | _ => (st, "badop")
+
+partial def loop (h : IO.FS.Stream) (out : IO.FS.Stream) (st : St) : IO Unit := do
+  let line ← h.getLine
+  if line.isEmpty then return ()
+  if line.startsWith "#" then
+    loop h out st
+  else
+    let (st', o) := step st line
+    out.putStrLn o
+    loop h out st'
+
+end Driver
+
+def main : IO Unit := do
+  let stdin ← IO.getStdin
+  let stdout ← IO.getStdout
+  Driver.loop stdin stdout {}
